@@ -246,9 +246,13 @@ func (c *tracingHTTP2Conn) closeStreamLocked(streamID uint32, stream *http2Strea
 	if isRequest {
 		stream.requestTracer.emitUnfinished()
 		stream.builder.add(&RequestBodyEnd{Err: err})
-	} else if stream.responseTracer.builder != nil {
+	} else {
 		stream.requestTracer.emitUnfinished()
-		stream.responseTracer.emitUnfinished()
+		if stream.responseTracer.builder != nil {
+			stream.responseTracer.emitUnfinished()
+		}
+		// Even if the response never started (like when the server refuses or
+		// resets the stream before sending headers), the operation is done.
 		stream.builder.add(&ResponseBodyEnd{Err: err})
 	}
 }
